@@ -29,7 +29,7 @@ import (
 //	put <key> <jsonok> <url> <parseok> <normurl> <host> <scheme> <secret> <limit> <stream> <screen> <rawjson>
 //	                      etcd: EtcdKeyUpdated(key, rawjson)          -> ok | panic:<msg>
 //	del <key>             etcd: EtcdKeyDeleted(key)                   -> ok | panic:<msg>
-//	probe <scheme> <host> <url> <raw>
+//	probe <scheme> <host> <url> <dots> <raw>
 //	                      GetBackend(parse(raw)) on the instance and on a fresh instance built from the final
 //	                      configuration                                -> chain=<ans> fresh=<ans>
 //	list                  GetBackends(), sorted                        -> chain=<ids> fresh=<ids>
@@ -84,22 +84,27 @@ func vC13NormEtcd(raw string) (ok bool, norm, host, scheme string) {
 	return true, u, p.Host, p.Scheme
 }
 
-func vC13NormProbe(raw string) (ok bool, scheme, host, us string) {
+func vC13NormProbe(raw string) (ok bool, scheme, host, us string, dots bool) {
 	p, err := url.Parse(raw)
 	if err != nil {
-		return false, "", "", ""
+		return false, "", "", "", false
+	}
+	for _, seg := range strings.Split(p.Path, "/") {
+		if seg == "." || seg == ".." {
+			dots = true
+		}
 	}
 	if strings.Contains(p.Host, ":") && vC13StdPort(p) {
 		p.Host = p.Hostname()
 	}
 	us = p.String()
 	if us == "" {
-		return false, "", "", ""
+		return false, "", "", "", false
 	}
 	if !strings.HasSuffix(us, "/") {
 		us += "/"
 	}
-	return true, p.Scheme, p.Host, us
+	return true, p.Scheme, p.Host, us, dots
 }
 
 func vC13B(b bool) string {
@@ -310,7 +315,7 @@ func vC13Probes(urls []string) []string {
 	var out []string
 	add := func(s string) {
 		if s != "" && !seen[s] {
-			if ok, _, _, _ := vC13NormProbe(s); ok {
+			if ok, _, _, _, _ := vC13NormProbe(s); ok {
 				seen[s] = true
 				out = append(out, s)
 			}
@@ -331,6 +336,9 @@ func vC13Probes(urls []string) []string {
 			}
 			cur += "/" + s
 			paths = append(paths, cur, cur+"/", cur+"x", cur+"/x", cur+"/ocs/v2.php/apps/spreed/api/v1/signaling/backend")
+			if len(paths)%3 == 0 {
+				paths = append(paths, cur+"/../zz/", cur+"/./", cur+"/%2e%2e/zz")
+			}
 		}
 		paths = append(paths, "/zz")
 		for _, pa := range paths {
@@ -353,8 +361,8 @@ func vC13Probes(urls []string) []string {
 }
 
 func vC13ProbeLine(raw string) string {
-	_, scheme, host, us := vC13NormProbe(raw)
-	return fmt.Sprintf("probe %s %s %s %s", vEnc(scheme), vEnc(host), vEnc(us), vEnc(raw))
+	_, scheme, host, us, dots := vC13NormProbe(raw)
+	return fmt.Sprintf("probe %s %s %s %s %s", vEnc(scheme), vEnc(host), vEnc(us), vC13B(dots), vEnc(raw))
 }
 
 func vC13GenStatic(e *vEnv, r *vRand, race bool) vCase {
@@ -704,8 +712,8 @@ func vC13Exec(t *testing.T, c *vCase) {
 	var race *vC13Race
 	var probesOfCase []string
 	for _, line := range c.Ops {
-		if f := strings.Fields(line); len(f) == 5 && f[0] == "probe" {
-			probesOfCase = append(probesOfCase, vDec(f[4]))
+		if f := strings.Fields(line); len(f) == 6 && f[0] == "probe" {
+			probesOfCase = append(probesOfCase, vDec(f[5]))
 		}
 	}
 	dead := false
@@ -713,6 +721,12 @@ func vC13Exec(t *testing.T, c *vCase) {
 		if in.etcd == nil && !in.static {
 			in.etcd = vC13NewEtcd()
 			in.cfg = &BackendConfiguration{storage: in.etcd}
+		}
+	}
+	// lookups before anything was loaded (shrunk cases): an etcd storage without keys
+	ensureInst := func() {
+		if in.cfg == nil {
+			ensureEtcd()
 		}
 	}
 	noteAllowed := func() {
@@ -771,8 +785,13 @@ func vC13Exec(t *testing.T, c *vCase) {
 			})
 		case "reload":
 			config, ok := vC13ParseCfg(f[1:])
-			if !ok || in.cfg == nil {
+			if !ok {
 				break
+			}
+			if in.cfg == nil || !in.static {
+				// a reload without a start (shrunk cases): an instance started with no backends
+				in.static, in.lastCfg = true, []string{"cs=%", "ids=,"}
+				in.cfg = in.freshInst()
 			}
 			in.lastCfg, in.fresh = f[1:], nil
 			noteAllowed()
@@ -797,10 +816,11 @@ func vC13Exec(t *testing.T, c *vCase) {
 			noteAllowed()
 			out = mutate(func() { in.etcd.EtcdKeyDeleted(nil, key, nil) })
 		case "probe":
-			if len(f) != 5 || in.cfg == nil {
+			if len(f) != 6 {
 				break
 			}
-			raw := vDec(f[4])
+			ensureInst()
+			raw := vDec(f[5])
 			u1, err1 := url.Parse(raw)
 			u2, err2 := url.Parse(raw)
 			if err1 != nil || err2 != nil {
@@ -816,15 +836,14 @@ func vC13Exec(t *testing.T, c *vCase) {
 				out = res
 			}
 		case "list":
-			if in.cfg == nil {
-				break
-			}
+			ensureInst()
 			out = "chain=" + vC13List(in.cfg.GetBackends()) + " fresh=" + vC13List(in.freshInst().GetBackends())
 		case "racebegin":
 			n, _ := strconv.Atoi(f[1])
-			if n < 1 || n > 16 || in.cfg == nil || race != nil {
+			if n < 1 || n > 16 || race != nil {
 				break
 			}
+			ensureInst()
 			race = &vC13Race{progress: make([]atomic.Int64, n), seen: map[string]map[string]bool{}, allowed: map[string]map[string]bool{}}
 			noteAllowed()
 			cfg := in.cfg
